@@ -112,6 +112,10 @@ def gen_times(rng, steps):
     r = rng.random()
     if n < 2 or r < 0.3:
         return None
+    if r < 0.36:                       # the last two exports at the same time (as a
+        t = [float(i) for i in range(n)]   # stationary model writes them)
+        t[-1] = t[-2]
+        return t
     if r < 0.5:                        # non-integer, uneven spacing, starting at 0
         t, out = 0.0, []
         for _ in range(n):
@@ -205,7 +209,15 @@ class C38(Prop):
                 k = rng.randint(1, 6)
                 steps = [[rng.randint(0, 4000) / 8.0, rng.randint(1, 800) / 16.0] for _ in range(k)]
                 idx = rng.choice([-1, -1, -1, 0, k - 1, rng.randint(-k, k - 1), k, -k - 1])
-                yield {"kind": "time", "steps": steps, "idx": idx}
+                case = {"kind": "time", "steps": steps, "idx": idx}
+                if rng.random() < 0.6:
+                    # adaptive manager; logged dt below / above / on the bounds (the
+                    # schedule correction may legitimately shorten a step below dt_min)
+                    lo, hi = rng.choice([(0.5, 10.0), (1.0, 4.0), (2.0, 25.0)])
+                    for st in steps:
+                        st[1] = rng.choice([lo, hi, lo / 4, lo / 2, hi * 2, hi + 0.5, st[1]])
+                    case["adaptive"] = [lo, hi]
+                yield case
                 continue
             r = rng.random()
             base = None if r < 0.45 else ("cartesian" if r < 0.75 else "simplex")
@@ -237,7 +249,7 @@ class C38(Prop):
             start = rng.choice([0, 0, 1, 7, 8, 9])
             steps = sorted(rng.sample(range(start, start + 5), nsteps))
             yield {"kind": "vtu", "base": base, "fracs": fracs, "extra": extra, "steps": steps,
-                   "times": gen_times(rng, steps),
+                   "times": gen_times(rng, steps), "str_key": rng.random() < 0.5,
                    "vector": rng.random() < 0.35, "seed": rng.randint(0, 10 ** 6)}
 
     # ---------------------------------------------------------------- implementation
@@ -312,7 +324,12 @@ class C38(Prop):
                 tm.time, tm.dt = t, h
                 tm.write_time_information(path)
             on_disk = json.load(open(path))
-            tm2 = pp.TimeManager(schedule=[0.0, 1000.0], dt_init=1.0, constant_dt=True)
+            if case.get("adaptive"):
+                lo, hi = case["adaptive"]
+                tm2 = pp.TimeManager(schedule=[0.0, 1000.0], dt_init=lo, constant_dt=False,
+                                     dt_min_max=(lo, hi))
+            else:
+                tm2 = pp.TimeManager(schedule=[0.0, 1000.0], dt_init=1.0, constant_dt=True)
             tm2.load_time_information(path)
             try:
                 tm2.set_time_and_dt_from_exported_steps(case["idx"])
@@ -337,8 +354,11 @@ class C38(Prop):
 
         written = {}
         for ts in case["steps"]:
-            data = [(sd, "p", rand(sd.num_cells)) for sd in sds]
+            data = [(sd, "pres", rand(sd.num_cells)) for sd in sds]
             data += [(intf, "lam", rand(intf.num_cells)) for intf in intfs]
+            # the (grid, key, array) tuples are handed over in a random, in general
+            # non-canonical, order
+            data = [data[i] for i in rng.permutation(len(data))]
             written[ts] = data
             ex.write_vtu(data, time_step=ts)
         times = case.get("times")
@@ -362,7 +382,7 @@ class C38(Prop):
                 vals = [np.asarray(v) for e in es for (e2, _, v) in last if e2 is e]
                 stem = f"f_{dim}_" if is_sd else f"f_mortar_{dim}_"
                 fname = Path(folder) / f"{stem}{case['steps'][-1]:06d}.vtu"
-                key = "p" if is_sd else "lam"
+                key = "pres" if is_sd else "lam"
                 try:
                     blocks = [np.asarray(b).tolist() for b in meshio.read(fname).cell_data[key]]
                 except ValueError as e:
@@ -388,7 +408,9 @@ class C38(Prop):
             d[pp.TIME_STEP_SOLUTIONS] = {}
         ex2 = pp.Exporter(mdg, "f", folder_name=folder)
         try:
-            ti = ex2.import_from_pvd(Path(folder) / "f.pvd", keys=["p", "lam"])
+            # a single key may be given as a plain string (documented)
+            keys = "pres" if (case.get("str_key") and not intfs) else ["pres", "lam"]
+            ti = ex2.import_from_pvd(Path(folder) / "f.pvd", keys=keys)
         except ValueError as e:
             if "Incompatible cell data" not in str(e):
                 raise
@@ -398,7 +420,7 @@ class C38(Prop):
         restored = []
         for dd in dims:
             ents = [e for e in (sds if dd["sd"] else intfs) if e.dim == dd["dim"]]
-            key = "p" if dd["sd"] else "lam"
+            key = "pres" if dd["sd"] else "lam"
             out = []
             for e in ents:
                 d = mdg.subdomain_data(e) if dd["sd"] else mdg.interface_data(e)
@@ -437,10 +459,18 @@ class C38(Prop):
         last = case["steps"][-1]
         suffix = f"_{last:06d}.vtu"
         want = sorted(f for f in res["picked"][3] if f.endswith(suffix))
-        if sorted(res["picked"][2]) != want:
+        times = case.get("times")
+        tied = times is not None and len(times) > 1 and times[-1] == times[-2]
+        if tied:
+            # two exports share the latest time: their files are all listed with it; the
+            # property only asks for the values of the most recent one (checked below)
+            if not set(want) <= set(res["picked"][2]):
+                return (f"import_from_pvd restarted from the files {sorted(res['picked'][2])}, "
+                        f"which lack the files of the most recent time-step index {last}: {want}")
+        elif sorted(res["picked"][2]) != want:
             return (f"import_from_pvd restarted from the files {sorted(res['picked'][2])}, the "
                     f"files of the most recent time-step index {last} are {want}")
-        if res["picked"][0] != last:
+        if res["picked"][0] != last and not tied:
             return (f"import_from_pvd restarted from time step {res['picked'][0]}, the most "
                     f"recent one written is {last}")
         for dd, back in zip(res["dims"], res["restored"]):
